@@ -229,9 +229,11 @@ struct Var
     uint8_t ver;
     bool typed;
 };
-static const Var kVar[8] = {
+// variants 8 and 9 reassemble to 65535 / 65519..65520 bytes (the largest messages the 16-bit length field admits)
+static const Var kVar[10] = {
     {{5, 5, 5}, 1, 0, 1, false},     {{1, 0, 5}, 65534, 3, 1, false}, {{0, 5, 1}, 65535, 20, 2, false}, {{6, 1, 0}, 0, 0, 1, true},
     {{5, 5, 5}, 65535, 3, 1, true},  {{0, 0, 0}, 1, 0, 2, false},     {{1, 1, 1}, 65533, 20, 1, false}, {{6, 0, 1}, 65534, 0, 2, true},
+    {{40000, 25535, 0}, 65534, 0, 1, false}, {{65519, 0, 1}, 1, 3, 1, true},
 };
 
 struct BuiltStream
@@ -466,6 +468,14 @@ static std::vector<MergeTask> mergeTasks(bool thorough)
                 for (int v0 = 0; v0 < 8; ++v0)
                     for (int v1 = 0; v1 < 8; ++v1)
                         ts.push_back({{p[0], p[1]}, {t0, t1}, {v0, v1}});
+    // largest admissible messages: templates FL / FIL with the two big variants against every partner template
+    for (int big = 8; big < 10; ++big)
+        for (int t0 = 0; t0 < 2; ++t0)   // FL and FIL only: a fourth segment would exceed the 65535-byte domain
+            for (int t1 = 0; t1 < 7; ++t1)
+            {
+                ts.push_back({{0, 1}, {t0, t1}, {big, 1}});
+                ts.push_back({{2, 0}, {t1, t0}, {2, big}});
+            }
     const size_t maxFrames = thorough ? 10 : 8;
     for (int t0 = 0; t0 < 7; ++t0)
         for (int t1 = 0; t1 < 7; ++t1)
@@ -1075,7 +1085,7 @@ int main(int argc, char** argv)
     const std::string prop = opt.prop;
     const bool thorough = opt.tier == "thorough";
     run.assumptions = {
-        "segment payload sizes are drawn from {0,1,5,6}, trailing bytes from {0,3,20}, start counters from {0,1,65533,65534,65535}",
+        "segment payload sizes are drawn from {0,1,5,6} plus two variants that reassemble to 65535 and 65519/65520 bytes, trailing bytes from {0,3,20}, start counters from {0,1,65533,65534,65535}",
         "three endpoints (1,1) (1,2) (2,1): two differ only in the stream id, two only in the device id",
         "VERIF_SEED is ignored: nothing is sampled",
     };
